@@ -198,6 +198,33 @@ pub(crate) mod verif_probe {
                     out
                 };
                 let mut nreq = 0usize;
+                let mut after_copy: Vec<String> = vec![];
+                // results around pgcat's 8 KiB relay threshold (see MockPg.big_rows)
+                let big_rows = |up: &str, n: usize| -> Vec<Vec<u8>> {
+                    let sizes: Vec<usize> = if up.contains("BIGROWS") { vec![3000, 3000, 3000] } else { vec![9000, 8] };
+                    let mut out = vec![];
+                    for (k, sz) in sizes.iter().enumerate() {
+                        let mut dr = vec![0u8, 1]; dr.extend_from_slice(&(*sz as i32).to_be_bytes());
+                        dr.extend((0..*sz).map(|i| ((i * 7 + k + n) % 251) as u8));
+                        out.push(pmsg(b'D', &dr));
+                    }
+                    out.push(pmsg(b'C', format!("SELECT {}\0", sizes.len()).as_bytes()));
+                    out
+                };
+                // the reply of an ordinary SELECT (one tagged row), or of the "bigrows" statement (three 3000-byte rows: crosses 8 KiB)
+                let select_reply = |s: &str, n: usize, tag: String, deliver: &mut Vec<Vec<u8>>| {
+                    let mut rd = vec![0u8, 1, b'c', 0]; rd.extend_from_slice(&0i32.to_be_bytes()); rd.extend_from_slice(&0i16.to_be_bytes());
+                    rd.extend_from_slice(&25i32.to_be_bytes()); rd.extend_from_slice(&(-1i16).to_be_bytes()); rd.extend_from_slice(&(-1i32).to_be_bytes()); rd.extend_from_slice(&0i16.to_be_bytes());
+                    deliver.push(pmsg(b'T', &rd));
+                    let up = s.to_ascii_uppercase();
+                    if up.contains("BIGROWS") || up.contains("HUGEROW") {
+                        for m in big_rows(&up, n) { deliver.push(m); }
+                    } else {
+                        let mut dr = vec![0u8, 1]; dr.extend_from_slice(&8i32.to_be_bytes()); dr.extend_from_slice(tag.as_bytes());
+                        deliver.push(pmsg(b'D', &dr));
+                        deliver.push(pmsg(b'C', b"SELECT 1\0"));
+                    }
+                };
                 loop {
                     let code = match sock.read_u8().await { Ok(c) => c, Err(_) => return };
                     let len = match sock.read_i32().await { Ok(l) => l, Err(_) => return };
@@ -217,8 +244,11 @@ pub(crate) mod verif_probe {
                         handled = true;
                         match code {
                             b'd' => {}
-                            b'c' => { t.copy_in = false; deliver.push(pmsg(b'C', b"COPY 1\0")); deliver.push(pmsg(b'Z', &[t.status])); }
-                            b'f' => { t.copy_in = false; if t.status != b'I' { t.status = b'E'; }
+                            b'c' => { t.copy_in = false; deliver.push(pmsg(b'C', b"COPY 1\0"));
+                                      // (the COPY was one statement of a multi-statement Query: the rest -- plain selects here -- runs now)
+                                      for s in after_copy.drain(..) { select_reply(&s, n, row_tag(s.as_bytes()), &mut deliver); }
+                                      deliver.push(pmsg(b'Z', &[t.status])); }
+                            b'f' => { t.copy_in = false; after_copy.clear(); if t.status != b'I' { t.status = b'E'; }
                                       deliver.push(pmsg(b'E', b"SERROR\0C57014\0MCOPY failed\0\0")); deliver.push(pmsg(b'Z', &[t.status])); }
                             b'H' | b'S' => {}
                             _ => { t.copy_in = false; if t.status != b'I' { t.status = b'E'; }
@@ -232,7 +262,8 @@ pub(crate) mod verif_probe {
                                 let stmts: Vec<String> = text.split(';').map(|s| s.trim().to_string()).filter(|s| !s.is_empty()).collect();
                                 if stmts.is_empty() { deliver.push(pmsg(b'I', b"")); }
                                 let mut copy_started = false;
-                                for s in stmts {
+                                for (si, s) in stmts.iter().enumerate() {
+                                    let s = s.clone();
                                     let u = s.to_ascii_uppercase().split_whitespace().collect::<Vec<_>>().join(" ");
                                     if t.status == b'E' && !["ROLLBACK", "ABORT", "COMMIT", "END"].contains(&u.as_str()) {
                                         deliver.push(pmsg(b'E', b"SERROR\0C25P02\0Mcurrent transaction is aborted\0\0")); break;
@@ -273,20 +304,13 @@ pub(crate) mod verif_probe {
                                     else if u == "DISCARD ALL" { t.dirty_set = false; t.role_set = false; t.sql_prepared = false; t.named = 0; prepared.clear(); deliver.push(pmsg(b'C', b"DISCARD ALL\0")); }
                                     else if u == "DEALLOCATE ALL" { t.sql_prepared = false; t.named = 0; prepared.clear(); deliver.push(pmsg(b'C', b"DEALLOCATE ALL\0")); }
                                     else if u.starts_with("PREPARE ") { if t.status == b'I' { t.sql_prepared = true; } deliver.push(pmsg(b'C', b"PREPARE\0")); }
-                                    else if u.starts_with("COPY ") && u.contains("FROM STDIN") { t.copy_in = true; deliver.push(pmsg(b'G', b"\0\0\0")); copy_started = true; break; }
+                                    else if u.starts_with("COPY ") && u.contains("FROM STDIN") { t.copy_in = true; after_copy = stmts[si + 1..].to_vec(); deliver.push(pmsg(b'G', b"\0\0\0")); copy_started = true; break; }
                                     else if u.starts_with("COPY ") && u.contains("TO STDOUT") {
                                         deliver.push(pmsg(b'H', b"\0\0\0")); deliver.push(pmsg(b'd', format!("{}\n", tag).as_bytes()));
                                         deliver.push(pmsg(b'c', b"")); deliver.push(pmsg(b'C', b"COPY 1\0")); }
                                     else if u.starts_with("ERROR") || u.contains("1/0") { if t.status != b'I' { t.status = b'E'; }
                                         deliver.push(pmsg(b'E', b"SERROR\0C22012\0Mdivision by zero\0\0")); break; }
-                                    else {
-                                        let mut rd = vec![0u8, 1, b'c', 0]; rd.extend_from_slice(&0i32.to_be_bytes()); rd.extend_from_slice(&0i16.to_be_bytes());
-                                        rd.extend_from_slice(&25i32.to_be_bytes()); rd.extend_from_slice(&(-1i16).to_be_bytes()); rd.extend_from_slice(&(-1i32).to_be_bytes()); rd.extend_from_slice(&0i16.to_be_bytes());
-                                        deliver.push(pmsg(b'T', &rd));
-                                        let mut dr = vec![0u8, 1]; dr.extend_from_slice(&8i32.to_be_bytes()); dr.extend_from_slice(row_tag(s.as_bytes()).as_bytes());
-                                        deliver.push(pmsg(b'D', &dr));
-                                        deliver.push(pmsg(b'C', b"SELECT 1\0"));
-                                    }
+                                    else { select_reply(&s, n, row_tag(s.as_bytes()), &mut deliver); }
                                 }
                                 if !copy_started {
                                     // scripted status reports ("every server status at that instant"): consumed in order by every simple query
@@ -330,6 +354,10 @@ pub(crate) mod verif_probe {
                                                     if t.status != b'I' { t.status = b'E'; }
                                                     pending.push(pmsg(b'E', b"SERROR\0C22012\0Mdivision by zero\0\0")); ignore_till_sync = true; done = true;
                                                 }
+                                            }
+                                            if !done {
+                                                let up = sql2.as_ref().map(|q| String::from_utf8_lossy(q).to_ascii_uppercase()).unwrap_or_default();
+                                                if up.contains("BIGROWS") || up.contains("HUGEROW") { for m in big_rows(&up, n) { pending.push(m); } done = true; }
                                             }
                                             if !done {
                                                 let mut dr = vec![0u8, 1]; dr.extend_from_slice(&8i32.to_be_bytes());
